@@ -208,3 +208,6 @@ Definition run (v : value) : value :=
   | 3 => vS (unescape (gS payload))
   | _ => L []
   end.
+
+(* __str__ of a message built from a line: the cached self._str *)
+Definition str_of_parsed (s0 : str) : str := if endswith1 LF s0 then s0 else s0 ++ [LF].
